@@ -69,7 +69,14 @@ def gen_case(rng, tier, idx):
                                    "outcome": rng.choice(["ok", "ok", "ok", "ok", "skip", "ce", "boom", "cpe"]),
                                    "helper_outcome": rng.choice(["ok"] * 6 + ["skip", "boom"])}
         classes.append(members)
-    return {"points": points, "classes": classes}
+    case = {"points": points, "classes": classes}
+    if rng.random() < 0.5:
+        # implementation classes that are only defined after every context was evaluated once (a spec module that
+        # is imported later); everything is then evaluated again
+        n_late = rng.randint(1, 2)
+        if len(classes) > n_late:
+            case["late_classes"] = n_late
+    return case
 
 
 def run_case(spec, ctx):
@@ -112,7 +119,10 @@ def run_case(spec, ctx):
             d = datasource(*deps)(f)
             created.append(d)
             return d
-        for ci, members in enumerate(spec["classes"]):
+        n_late = spec.get("late_classes", 0)
+        phases = [list(range(len(spec["classes"]) - n_late))] + ([list(range(len(spec["classes"]) - n_late, len(spec["classes"])))] if n_late else [])
+
+        def define(ci, members):
             body = {"__module__": modname}
             for ks, m in sorted(members.items()):
                 k = int(ks)
@@ -135,7 +145,9 @@ def run_case(spec, ctx):
                 d = mk_ds(tag, m["outcome"], deps, value)
                 body["p%d" % k] = d
                 impls[k].append((set(m["ctxs"]), m["outcome"], tag, helper_ok, d, value))
-            I = type("I%d_%d" % (uid, ci), (S,), body)
+            type("I%d_%d" % (uid, ci), (S,), body)
+        for ci in phases[0]:
+            define(ci, spec["classes"][ci])
         # consumers
         consumers = []
         for k in range(npts):
@@ -149,75 +161,84 @@ def run_case(spec, ctx):
             c = parser(pts[k])(mkp())
             created.append(c)
             consumers.append(c)
-        # flags are copied to every implementation and its delegate
-        for k in range(npts):
-            for (_, _, tag, _, d, _) in impls[k]:
-                for attr, val in spec["points"][k].items():
-                    if getattr(d, attr, "<unset>") != val or getattr(dr.get_delegate(d), attr, "<unset>") != val:
-                        ctx.violation("spec-flags-not-copied-to-implementation", {"flag": attr, "point": k, "impl": tag})
-                ctx.count("flag_sets_checked")
-        graph = {}
-        for c in consumers:
-            graph.update(dr.get_dependency_graph(c))
-        for active in CTX_NAMES:
-            del LOG[:]
-            br = dr.Broker()
-            br[C[active]] = C[active]()
-            raised = None
-            try:
-                dr.run(dict(graph), broker=br)
-            except Exception as ex:
-                raised = ex
-            case = {"definition": spec, "active": active}
-            nt = False
-            if raised is not None:
-                ctx.violation("evaluation-raised", {"active": active, "exc": repr(raised)})
+
+        def evaluate_all(phase):
+            nonlocal any_nt
+            # flags are copied to every implementation and its delegate
             for k in range(npts):
-                cands = [x for x in impls[k] if active in x[0]]
-                mine = set(x[2] for x in impls[k])
-                invoked = [t for t in LOG if isinstance(t, str) and t in mine]
-                got_parser = [t[2] for t in LOG if isinstance(t, tuple) and t[1] == k]
-                if len(cands) >= 2:
-                    nt = True
-                    ctx.count("points_with_several_candidates")
-                if any(len(x[0]) > 1 for x in impls[k]):
-                    nt = True
-                for x in impls[k]:
-                    if active not in x[0] and x[2] in invoked:
-                        ctx.violation("implementation-for-other-context-executed", {"active": active, "point": k, "impl": x[2], "declared": sorted(x[0])})
-                if not cands:
-                    if pts[k] in br or invoked:
-                        ctx.violation("spec-filled-without-implementation-for-active-context", {"active": active, "point": k, "invoked": invoked})
-                    ctx.count("points_without_candidate")
-                    continue
-                w = cands[-1]
-                ctx.count("overridden_implementations_checked", len(cands) - 1)
-                exp_inv = [w[2]] if w[3] else []
-                if invoked != exp_inv:
-                    extra = [t for t in invoked if t != w[2]]
-                    mech = "overridden-implementation-executed" if extra else "latest-implementation-not-executed"
-                    ctx.violation(mech, {"active": active, "point": k, "invoked": invoked, "expected": exp_inv,
-                                         "registration_order": [(x[2], sorted(x[0]), x[1]) for x in impls[k]]})
-                produced = w[3] and w[1] == "ok"
-                if produced:
-                    if br.get(pts[k]) != w[5]:
-                        ctx.violation("spec-value-not-from-latest-implementation", {"active": active, "point": k, "got": repr(br.get(pts[k])), "expected": w[5]})
-                    expp = list(w[5]) if isinstance(w[5], list) else [w[5]]
-                    if got_parser != expp:
-                        ctx.violation("parser-did-not-receive-the-latest-implementation-value", {"active": active, "point": k, "got": got_parser, "expected": expp})
-                    ctx.count("winner_values_compared")
-                else:
-                    if pts[k] in br:
-                        ctx.violation("absent-spec-filled-from-overridden-implementation", {"active": active, "point": k, "got": repr(br.get(pts[k])),
-                                                                                          "registration_order": [(x[2], sorted(x[0]), x[1]) for x in impls[k]]})
-                    if got_parser:
-                        ctx.violation("parser-ran-on-absent-spec", {"active": active, "point": k})
-                    ctx.count("winner_yielded_nothing")
-            ctx.note_case(case, nt)
-            ctx.seen("active_contexts", active)
-            if nt and len(ctx.samples) < 3:
-                ctx.sample(case)
-            any_nt = any_nt or nt
+                for (_, _, tag, _, d, _) in impls[k]:
+                    for attr, val in spec["points"][k].items():
+                        if getattr(d, attr, "<unset>") != val or getattr(dr.get_delegate(d), attr, "<unset>") != val:
+                            ctx.violation("spec-flags-not-copied-to-implementation", {"flag": attr, "point": k, "impl": tag})
+                    ctx.count("flag_sets_checked")
+            graph = {}
+            for c in consumers:
+                graph.update(dr.get_dependency_graph(c))
+            for active in CTX_NAMES:
+                del LOG[:]
+                br = dr.Broker()
+                br[C[active]] = C[active]()
+                raised = None
+                try:
+                    dr.run(dict(graph), broker=br)
+                except Exception as ex:
+                    raised = ex
+                case = {"definition": spec, "active": active, "evaluation": phase}
+                nt = False
+                if raised is not None:
+                    ctx.violation("evaluation-raised", {"active": active, "exc": repr(raised)})
+                for k in range(npts):
+                    cands = [x for x in impls[k] if active in x[0]]
+                    mine = set(x[2] for x in impls[k])
+                    invoked = [t for t in LOG if isinstance(t, str) and t in mine]
+                    got_parser = [t[2] for t in LOG if isinstance(t, tuple) and t[1] == k]
+                    if len(cands) >= 2:
+                        nt = True
+                        ctx.count("points_with_several_candidates")
+                    if any(len(x[0]) > 1 for x in impls[k]):
+                        nt = True
+                    for x in impls[k]:
+                        if active not in x[0] and x[2] in invoked:
+                            ctx.violation("implementation-for-other-context-executed", {"active": active, "point": k, "impl": x[2], "declared": sorted(x[0])})
+                    if not cands:
+                        if pts[k] in br or invoked:
+                            ctx.violation("spec-filled-without-implementation-for-active-context", {"active": active, "point": k, "invoked": invoked})
+                        ctx.count("points_without_candidate")
+                        continue
+                    w = cands[-1]
+                    ctx.count("overridden_implementations_checked", len(cands) - 1)
+                    exp_inv = [w[2]] if w[3] else []
+                    if invoked != exp_inv:
+                        extra = [t for t in invoked if t != w[2]]
+                        mech = "overridden-implementation-executed" if extra else "latest-implementation-not-executed"
+                        ctx.violation(mech, {"active": active, "point": k, "invoked": invoked, "expected": exp_inv,
+                                             "registration_order": [(x[2], sorted(x[0]), x[1]) for x in impls[k]]})
+                    produced = w[3] and w[1] == "ok"
+                    if produced:
+                        if br.get(pts[k]) != w[5]:
+                            ctx.violation("spec-value-not-from-latest-implementation", {"active": active, "point": k, "got": repr(br.get(pts[k])), "expected": w[5]})
+                        expp = list(w[5]) if isinstance(w[5], list) else [w[5]]
+                        if got_parser != expp:
+                            ctx.violation("parser-did-not-receive-the-latest-implementation-value", {"active": active, "point": k, "got": got_parser, "expected": expp})
+                        ctx.count("winner_values_compared")
+                    else:
+                        if pts[k] in br:
+                            ctx.violation("absent-spec-filled-from-overridden-implementation", {"active": active, "point": k, "got": repr(br.get(pts[k])),
+                                                                                              "registration_order": [(x[2], sorted(x[0]), x[1]) for x in impls[k]]})
+                        if got_parser:
+                            ctx.violation("parser-ran-on-absent-spec", {"active": active, "point": k})
+                        ctx.count("winner_yielded_nothing")
+                ctx.note_case(case, nt)
+                ctx.seen("active_contexts", active)
+                if nt and len(ctx.samples) < 3:
+                    ctx.sample(case)
+                any_nt = any_nt or nt
+        evaluate_all(1)
+        for late in phases[1:]:
+            for ci in late:
+                define(ci, spec["classes"][ci])
+            ctx.count("late_registrations_followed_by_second_evaluation")
+            evaluate_all(2)
         ctx.evaluations -= 1
         return False
     finally:
